@@ -49,7 +49,9 @@ FaultKinds == {"undef_operand", "undef_nosfx", "undef_data", "bad_suffix", "bad_
 Spaces(n) == [j \in 1..n |-> " "]
 RECURSIVE Cat(_)
 Cat(ss) == IF ss = <<>> THEN "" ELSE Head(ss) \o Cat(Tail(ss))
-Indent(n, s) == Cat(Spaces(n)) \o s
+\* n = 0 - 1: one TAB (which is one character: the column of what follows is 1)
+Indent(n, s) == IF n = 0 - 1 THEN "\t" \o s ELSE Cat(Spaces(n)) \o s
+IndentWidth(n) == IF n = 0 - 1 THEN 1 ELSE n
 
 RECURSIVE LinesOf(_)
 LinesOf(kinds) == IF kinds = <<>> THEN <<>> ELSE Item(Head(kinds)) \o LinesOf(Tail(kinds))
@@ -59,8 +61,11 @@ LinesOf(kinds) == IF kinds = <<>> THEN <<>> ELSE Item(Head(kinds)) \o LinesOf(Ta
 Case(pre, fk, ind, tail, where) ==
     LET f == Fault(fk)
         stmt == Indent(ind, f.text)
-        before == LinesOf(pre)
-        after == IF tail = "more" THEN <<"nop", "rts">> ELSE <<>>
+        \* tail "inmacro": the statement stands in the body of a macro that is applied afterwards (its own line is
+        \* still the one to report)
+        after == IF tail = "more" THEN <<"nop", "rts">> ELSE IF tail = "inmacro" THEN <<"}", "faultymacro()", "rts">> ELSE <<>>
+        before0 == LinesOf(pre)
+        before == IF tail = "inmacro" THEN before0 \o <<".macro faultymacro() {">> ELSE before0
         body == before \o <<stmt>> \o after
         origin == <<"*=0x008000">>
     IN [ main |-> IF where = "main" THEN origin \o body ELSE origin \o <<"nop", ".include 'part.s'", "rts">>,
@@ -68,7 +73,7 @@ Case(pre, fk, ind, tail, where) ==
          final_newline |-> tail # "eof",
          req |-> [ file |-> IF where = "main" THEN "main.s" ELSE "part.s",
                    line |-> Len(before) + (IF where = "main" THEN 1 ELSE 0),
-                   text |-> stmt, lexical |-> f.lexical, col |-> ind + f.off ] ]
+                   text |-> stmt, lexical |-> f.lexical, col |-> IndentWidth(ind) + f.off ] ]
 
 \* design-level property of this module: the required location depends only on the number of physical
 \* lines before the statement in its own file
